@@ -23,6 +23,7 @@ uint8_t g_b0, g_b1, g_b2, g_b3, g_b4, g_b5, g_b6, g_b7;
 size_t g_wk, g_nw, g_nwx;
 struct c05_skip_ghost g_w;
 struct c05_ghost g_j;
+int g_nt; uint64_t g_tok;
 
 #define IN_BYTES uint8_t in_b0, in_b1, in_b2, in_b3, in_b4, in_b5, in_b6, in_b7; g_b0 = in_b0; g_b1 = in_b1; g_b2 = in_b2; g_b3 = in_b3; \
                  g_b4 = in_b4; g_b5 = in_b5; g_b6 = in_b6; g_b7 = in_b7
